@@ -68,6 +68,10 @@ public:
             return complete();
         else if (ec == asio::error::operation_aborted)
             return perform();
+        // the timer may have expired while a CONNACK that disables
+        // the keep-alive was on its way or being processed
+        else if (_svc_ptr->negotiated_keep_alive() == 0)
+            return perform();
 
         auto pingreq = control_packet<allocator_type>::of(
             no_pid, get_allocator(), encoders::encode_pingreq
